@@ -3077,18 +3077,23 @@ func ParseDuration(s string) (time.Duration, error) {
 	// Split string into individual runes.
 	a := []rune(s)
 
-	// Start with a zero duration.
-	var d time.Duration
+	// The magnitude of the duration is accumulated unsigned, with every
+	// multiplication and addition checked against the largest magnitude that
+	// still fits in a time.Duration: MaxInt64 for a positive duration and
+	// MaxInt64+1 for a negative one.
+	var mag uint64
+	limit := uint64(math.MaxInt64)
 	i := 0
 
 	// Check for a negative.
 	isNegative := false
 	if a[i] == '-' {
 		isNegative = true
+		limit++
 		i++
 	}
 
-	var measure int64
+	var measure uint64
 	var unit string
 
 	// Parsing loop.
@@ -3105,7 +3110,7 @@ func ParseDuration(s string) (time.Duration, error) {
 		}
 
 		// Parse the numeric part.
-		n, err := strconv.ParseInt(string(a[start:i]), 10, 64)
+		n, err := strconv.ParseUint(string(a[start:i]), 10, 64)
 		if err != nil {
 			return 0, ErrInvalidDuration
 		}
@@ -3114,49 +3119,53 @@ func ParseDuration(s string) (time.Duration, error) {
 		// Extract the unit of measure.
 		// If the last two characters are "ms" then parse as milliseconds.
 		// Otherwise just use the last character as the unit of measure.
+		var mult time.Duration
 		unit = string(a[i])
 		switch a[i] {
 		case 'n':
 			if i+1 < len(a) && a[i+1] == 's' {
 				unit = string(a[i : i+2])
-				d += time.Duration(n)
-				i += 2
-				continue
+				mult = time.Nanosecond
+				i++
+			} else {
+				return 0, ErrInvalidDuration
 			}
-			return 0, ErrInvalidDuration
 		case 'u', 'µ':
-			d += time.Duration(n) * time.Microsecond
+			mult = time.Microsecond
 		case 'm':
 			if i+1 < len(a) && a[i+1] == 's' {
 				unit = string(a[i : i+2])
-				d += time.Duration(n) * time.Millisecond
-				i += 2
-				continue
+				mult = time.Millisecond
+				i++
+			} else {
+				mult = time.Minute
 			}
-			d += time.Duration(n) * time.Minute
 		case 's':
-			d += time.Duration(n) * time.Second
+			mult = time.Second
 		case 'h':
-			d += time.Duration(n) * time.Hour
+			mult = time.Hour
 		case 'd':
-			d += time.Duration(n) * 24 * time.Hour
+			mult = 24 * time.Hour
 		case 'w':
-			d += time.Duration(n) * 7 * 24 * time.Hour
+			mult = 7 * 24 * time.Hour
 		default:
 			return 0, ErrInvalidDuration
 		}
 		i++
-	}
 
-	// Check to see if we overflowed a duration
-	if d < 0 && !isNegative {
-		return 0, fmt.Errorf("overflowed duration %d%s: choose a smaller duration or INF", measure, unit)
+		// Check to see if this component overflows the duration:
+		// n*mult > limit-mag, without computing the product.
+		if n > (limit-mag)/uint64(mult) {
+			return 0, fmt.Errorf("overflowed duration %d%s: choose a smaller duration or INF", measure, unit)
+		}
+		mag += n * uint64(mult)
 	}
 
 	if isNegative {
-		d = -d
+		// mag <= MaxInt64+1; the conversion and negation are exact (MinInt64 included).
+		return -time.Duration(mag), nil
 	}
-	return d, nil
+	return time.Duration(mag), nil
 }
 
 // FormatDuration formats a duration to a string.
